@@ -3,7 +3,8 @@ C20 driver: parses the case lines the harness executes (harness/c20/c20.c, harne
 (`model` mode) or the specification oracle on an implementation trace (`judge` mode).
 
 Case lines:
-  pol cf <dir> <spec>              creator_file answer for /c20/<dir>/...
+  pol cf <dir> [drop+]<spec>       creator_file answer for /c20/<dir>/...; `drop+`: the master first calls back into the
+                                   creating object - when that is the master itself - and makes it seteuid(0)
   pol vs <oid|*> <uid|*|-> <spec>  valid_seteuid answer (`-` = empty uid)
   pol co <dir> none|i:<n>|err|t:<template path>|-   compile_object answer for /c20/<dir>/... (`-` = no policy)
   script <name> <op>;<op>..|-      ops run by create() of the object with that file name (<path> / <path>#)
@@ -154,6 +155,8 @@ structure Tables where
   cf : List (String × Ans) :=
     [("u1", .str "u1"), ("u2", .str "u2"), ("bb", .str "Backbone"), ("root", .str "Root"), ("odd", .int 0)]
   vs : List (String × Ans) := []
+  /-- directories whose creator_file answer is preceded by the master's callback into itself (`drop+<spec>`) -/
+  cfd : List (String × Bool) := []
   scripts : List (String × List Op) := []
   co : List (String × Option CoAns) := []
 
@@ -164,6 +167,11 @@ def Tables.cfAns (t : Tables) (name : String) : Ans :=
   match name.splitOn "/" with
   | "" :: "c20" :: d :: _ :: _ => (lookupS t.cf d).getD (.str "Root")
   | _ => .str "Root"
+
+def Tables.cfDrop (t : Tables) (name : String) : Bool :=
+  match name.splitOn "/" with
+  | "" :: "c20" :: d :: _ :: _ => ((t.cfd.find? (fun e => e.1 == d)).map (·.2)).getD false
+  | _ => false
 
 def Tables.coAns (t : Tables) (name : String) : CoAns :=
   match name.splitOn "/" with
@@ -222,9 +230,12 @@ def parseLine (p : Parsed) (line : String) : Parsed :=
       match parseCo spec with
       | some a => { p with tab := { p.tab with co := (d, some a) :: p.tab.co } }
       | none => { p with bad := line :: p.bad }
-  | ["pol", "cf", d, spec] =>
+  | ["pol", "cf", d, spec0] =>
+    -- `drop+<spec>`: before answering, the master calls back into the creating object (if that is the master itself)
+    let drop := spec0.startsWith "drop+"
+    let spec := if drop then (spec0.drop 5).toString else spec0
     match parseAns spec with
-    | some a => { p with tab := { p.tab with cf := (d, a) :: p.tab.cf } }
+    | some a => { p with tab := { p.tab with cf := (d, a) :: p.tab.cf, cfd := (d, drop) :: p.tab.cfd } }
     | none => { p with bad := line :: p.bad }
   | ["pol", "vs", o, u, spec] =>
     match parseAns spec with
@@ -254,7 +265,10 @@ def policyOf (steps : List ((Oid × Op) × Tables)) : Policy :=
       | none => [],
     co := fun i name => match arr[i]? with
       | some e => e.2.coAns name
-      | none => .silent }
+      | none => .silent,
+    cfDrop := fun i name => match arr[i]? with
+      | some e => e.2.cfDrop name
+      | none => false }
 
 def runModel (lines : List String) : List String :=
   let p := parseCase lines
